@@ -433,7 +433,41 @@ impl Network {
             })
             .max()
             .unwrap_or(1);
-        let overflow_capacity = number_of_service_nodes as VehicleCount * max_formation_count;
+        // every vehicle serves at least one service trip or occupies a maintenance track. Types
+        // with unbounded formations may need several vehicles per trip, and vehicles that are
+        // spawned for maintenance only need a place as well.
+        let vehicles_for_service_trips = service_trips
+            .iter()
+            .map(|(vehicle_type_idx, trips)| {
+                let vehicle_type = vehicle_types.get(*vehicle_type_idx).unwrap();
+                trips
+                    .iter()
+                    .map(|trip| {
+                        let required = trip
+                            .passengers()
+                            .div_ceil(vehicle_type.capacity())
+                            .max(trip.seated().div_ceil(vehicle_type.seats()))
+                            .max(1);
+                        match (
+                            vehicle_type.maximal_formation_count(),
+                            trip.maximal_formation_count(),
+                        ) {
+                            (Some(limit_of_type), Some(limit_of_trip)) => {
+                                limit_of_type.min(limit_of_trip)
+                            }
+                            (Some(limit), None) | (None, Some(limit)) => limit,
+                            (None, None) => required,
+                        }
+                    })
+                    .sum::<VehicleCount>()
+            })
+            .sum::<VehicleCount>();
+        let vehicles_for_maintenance = maintenance_slots
+            .iter()
+            .map(|slot| slot.track_count())
+            .sum::<VehicleCount>();
+        let overflow_capacity = (number_of_service_nodes as VehicleCount * max_formation_count)
+            .max(vehicles_for_service_trips + vehicles_for_maintenance);
         let overflow_depot_id = DepotIdx::from(depots.len() as Idx);
         let overflow_depot = Depot::new(
             overflow_depot_id,
